@@ -448,6 +448,7 @@ func simplifyPhis(newPhis BlockMap[[]newPhi]) {
 	// find all phis that are trivial and can be replaced with a
 	// non-phi value. run until we reach a fixpoint, because replacing
 	// a phi may make other phis trivial.
+	var replaced []*Phi
 	for changed := true; changed; {
 		changed = false
 		for _, npList := range newPhis {
@@ -462,10 +463,18 @@ func simplifyPhis(newPhis BlockMap[[]newPhi]) {
 					// up the phi afterwards.
 					replaceAll(np.phi, r)
 					np.phi.live = true
+					replaced = append(replaced, np.phi)
 					changed = true
 				}
 			}
 		}
+	}
+	// 'live' was only borrowed as an "already replaced" marker. A replaced
+	// phi has no referrers left, so the dead phi pass must see it as not
+	// live: otherwise it is kept in its block while its own operands may be
+	// phis that nothing else uses and that are removed.
+	for _, phi := range replaced {
+		phi.live = false
 	}
 }
 
